@@ -1,5 +1,6 @@
 """C09 — sprouts keep their distance from existing demes; centroids are current."""
 from . import _whole
+from .. import session
 from .. import filters_direct
 
 
@@ -21,6 +22,19 @@ def nontrivial(r):
     return r["stats"].get("rounds", 0) >= 2 and r["stats"].get("demes", 0) > 2
 
 
+def sessions(ctx, results):
+    r = session.run_sessions(ctx, ctx.n(16, 300), ["C09"])
+    known = "C09/progress/all-active-demes-hibernating"
+    return {"violations": [v for v in r["violations"] if v["key"].startswith("C09")], "evaluations": r["evaluations"], "distinct_nontrivial": 0, "notes": {"session_runs": r["evaluations"]}}
+
+
+def _replay_session(ctx, data):
+    return session.replay_session(ctx, data, ["C09"])
+
+
+sessions.replay_name, sessions.replay = "session", _replay_session
+
+
 _whole.install(globals(), "C09",
                text="Theorems for any distance function, candidates and target-level demes: a candidate survives FarEnough / NBC_FarEnough iff it is strictly farther than the threshold from the "
                     "centroid of EVERY considered deme (the active ones, or all when check_only_active is false); the centroid accessor is the mean of the current (last) generation after every "
@@ -29,5 +43,5 @@ _whole.install(globals(), "C09",
                     "monitor recomputes every distance from the siblings' CURRENT populations).",
                note="numpy's norm and mean are oracle values (policy 3): the monitor recomputes them and skips decisions within 1e-9 relative of the threshold. MahalanobisFarEnough is outside the property.",
                technique="Coq theorem on the filter model + vm_compute differential run against the real filter classes + centroid/distance monitors on recorded rounds",
-               quick=160, thorough=4000, nontrivial=nontrivial, extra_checks=[direct],
+               quick=160, thorough=4000, nontrivial=nontrivial, extra_checks=[direct, sessions],
                forces=[(2, {"height": 3}), (2, {"height": 2}), (1, {"height": 3, "engines": ["SEA", "DE", "CMA"]})])
